@@ -38,6 +38,11 @@ type behav struct {
 	failAt  int // >= 0: getBlocksFromId for a start block of that height or above is answered with an error
 	muteAt  int // >= 0: ... is never answered (the requester's request times out)
 	preTemp int // > 0: the requester's temp block table holds stale copies of its top blocks before the synchronisation
+	// state family "finality was reached and the blocks that carried it were reverted" (rollback.go): `rb=<via><k>`
+	rbVia    byte // 'd' deleteBlock x k, 'b' block synchronisation that deletes k blocks and then fails, 't' tie-break replacement of the tip, 'f' aborted fast synchronisation (restore)
+	rbK      int
+	listenIP string // rollback.go: loopback address of the responder ("" = 127.0.0.1)
+	dlCount  *int64 // rollback.go: counts the getBlocksFromId requests the responder receives
 }
 
 func parseBehav(w []string) behav {
@@ -69,6 +74,7 @@ func parseBehav(w []string) behav {
 		b.target = v
 	}
 	b.extra, _ = kvStr(w, "extra")
+	b.rbVia, b.rbK = parseRollback(w) // rollback.go
 	if v, _ := kvStr(w, "main"); v == "e" {
 		b.mainFail = true
 	}
@@ -156,7 +162,11 @@ func attackerChain(pBlocks []*blockchain.Block, bad int, static bool) ([]*blockc
 // honest responder runs the REAL handlers of a Syncer over the responder node's chain; the other
 // behaviours are served by the harness from an explicit block list.
 func newResponder(c *chains, b behav, served []*blockchain.Block, armed *atomic.Bool, quit chan struct{}) (*p2p.Connection, error) {
-	conn := p2p.NewConnection(node.NopLogger(), &p2p.Config{ChainID: c.p.Cfg.ChainID, Addresses: []string{"/ip4/127.0.0.1/tcp/0"}})
+	listen := "/ip4/127.0.0.1/tcp/0"
+	if b.listenIP != "" {
+		listen = "/ip4/" + b.listenIP + "/tcp/0"
+	}
+	conn := p2p.NewConnection(node.NopLogger(), &p2p.Config{ChainID: c.p.Cfg.ChainID, Addresses: []string{listen}})
 	syncer := lsync.NewSyncer(c.p.Chain, c.p.BlockSlot(), conn, node.NopLogger(), nil, nil)
 	last := syncer.HandleRPCEndpointGetLastBlock()
 	common := syncer.HandleRPCEndpointGetHighestCommonBlock()
@@ -234,6 +244,13 @@ func newResponder(c *chains, b behav, served []*blockchain.Block, armed *atomic.
 			} else {
 				honestLast(w, r)
 			}
+		}
+	}
+	if b.dlCount != nil {
+		inner := blocks
+		blocks = func(w p2p.ResponseWriter, r *p2p.Request) {
+			atomic.AddInt64(b.dlCount, 1)
+			inner(w, r)
 		}
 	}
 	var opts []p2p.RPCHandlerOption
@@ -355,6 +372,14 @@ func runSyncOnce(c *chains, w []string) (out string, fails []corr.Fail) {
 	q, resp := pr.q, pr.resp
 	q.AllowSync = true
 	q.PeerID = resp.ID()
+	if pr.view != nil {
+		// rollback.go: the requester's tip was rolled back before the synchronisation; the oracles below see the
+		// chains as they are now (own tip Q-k, the stored finalized height is still the one of the full chain)
+		c = pr.view
+		if out, ok := checkRollbackParams(c, q, w); !ok {
+			return out, nil
+		}
+	}
 	if b.muteAt >= 0 {
 		q.Conn.VerifC19SetTimeout(muteTimeout)
 	}
@@ -397,6 +422,7 @@ func runSyncOnce(c *chains, w []string) (out string, fails []corr.Fail) {
 			sctx = real
 		}
 	}
+	fails = append(fails, checkSyncContext(q, tcopy, resp.ID(), b)...) // rollback.go: every input of the synchronisers is a committed value
 	syncer := q.Exec.VerifSyncer()
 	mode := "none"
 	switch {
@@ -461,6 +487,9 @@ func runSyncOnce(c *chains, w []string) (out string, fails []corr.Fail) {
 	// C04SYNC: event stream / finalized blocks oracle (c04sync.go)
 	fails = append(fails, checkSyncFinality(c, q, q.DrainEvents(), before, after, finBefore, mode, b)...)
 	banned := len(q.Conn.VerifC19BannedIPs()) > 0
+	if pr.view != nil {
+		banned = hasIP(q.Conn.VerifC19BannedIPs(), mainPeerIP) // (rollback.go: the first peer of a rollback path has another address)
+	}
 	temp, _ := q.TempBlocks()
 	tip := q.Tip().Header
 	errFlag := 0
@@ -598,7 +627,8 @@ func runSyncOnce(c *chains, w []string) (out string, fails []corr.Fail) {
 		}
 		if syncErr != nil && same(after, before) && q.Finalized() == finBefore {
 			d := node.DiffDumps(dumpBefore, q.DumpDB())
-			if b.preTemp > 0 {
+			if b.preTemp > 0 || b.rbVia == 'b' {
+				// (rollback.go: an interrupted block synchronisation leaves its deleted blocks in the temp table)
 				// (C19TEMP: the stale entries of the temp table may be gone)
 				kept := d[:0:0]
 				for _, l := range d {
@@ -611,7 +641,7 @@ func runSyncOnce(c *chains, w []string) (out string, fails []corr.Fail) {
 			if len(d) > 0 && len(temp) == 0 {
 				fails = append(fails, fail("c19-restore-db-differs", "fast sync failed (%s), chain restored but the database differs: %v", b.kind(), d))
 			}
-			if len(temp) != 0 && b.preTemp == 0 {
+			if len(temp) != 0 && b.preTemp == 0 && b.rbVia != 'b' {
 				fails = append(fails, fail("c19-temp-blocks-left", "fast sync failed (%s), chain restored but %d temp blocks are left", b.kind(), len(temp)))
 			}
 		}
@@ -630,6 +660,8 @@ func runSyncOnce(c *chains, w []string) (out string, fails []corr.Fail) {
 			fails = append(fails, fail("c19-invalid-block-unnoticed", "fast sync from a peer serving an invalid block reported success"))
 		}
 	}
+	// rollback.go: a failed synchronisation leaves no truncated chain; nothing at or below the stored finalized height goes
+	fails = append(fails, checkAfterFailedSync(c, q, omode, b, syncErr, before, after, finBefore, banned, pr)...)
 	// nobody may end on a chain containing a tampered block
 	for _, id := range after {
 		if t, ok := extraTok[string(id)]; ok {
